@@ -134,12 +134,20 @@ class State:
         self.heap = heap if heap is not None else {}
         self.frame = None          # C of kind frame
         self.returned = z3.BoolVal(False)
+        self.broken = z3.BoolVal(False)     # inside an unrolled loop: a break was taken (or the loop condition failed)
+        self.cont = z3.BoolVal(False)       # inside an unrolled loop body: a continue was taken
         self.ret = None
+
+    def dead(self):
+        """statements executed in this state have no effect when it holds (after return / break / continue)"""
+        return z3.simplify(z3.Or(self.returned, self.broken, self.cont))
 
     def fork(self):
         s = State(dict(self.heap))
         s.frame = self.frame
         s.returned = self.returned
+        s.broken = self.broken
+        s.cont = self.cont
         s.ret = self.ret
         return s
 
@@ -207,6 +215,9 @@ class Evaluator:
         self.mode = mode  # "int" | "real"
         self.side = []    # side constraints (definitions of fresh symbols)
         self.oblig = []   # obligations generated on the way (e.g. divisor != 0): (label, formula)
+        self.unroll = 0   # loops: number of iterations to execute symbolically (0 = loops unsupported)
+        self.rounding = False        # real mode: every binary32 + - * / is followed by one rounding (relative error 2^-24, range obligations)
+        self.rounding_types = ()     # record-typed names that stand for a float (SSE lane 0)
         self.fresh = 0
         self.models = models or {}
         self.globals = C([], "frame")
@@ -227,6 +238,12 @@ class Evaluator:
     def alloc(self, st, ty, name, symbolic=True):
         """allocate a value of C-level type ty in st.heap; returns scalar / C handle"""
         tr = self.tr
+        if ty.kind == "rec" and ty.name in tr.opts.get("opaque_types", {}):
+            # a type the unit reads as a C scalar (e.g. an SSE register read on lane 0)
+            if not symbolic:
+                self.fresh += 1
+                name = "%s!u%d" % (name, self.fresh)
+            return self.sym(name)
         if ty.kind == "rec":
             cn = tr.need_record(ty.name)
             info = tr.rec_info.get(cn)
@@ -266,7 +283,7 @@ class Evaluator:
 
     def store(self, st, p, v):
         """store value v at location p (aggregates are copied field-wise into the existing aggregate)"""
-        g = z3.simplify(st.returned)
+        g = st.dead()
         if isinstance(v, Inf):
             if not z3.is_false(g):
                 raise ExtractionBreak("mathvc: conditional store of an infinity")
@@ -314,9 +331,9 @@ class Evaluator:
             raise ExtractionBreak("mathvc: call to '%s' which has no body and no model" % fname)
         if self.depth > 60:
             raise ExtractionBreak("mathvc: call depth")
-        saved = (st.frame, st.returned, st.ret)
+        saved = (st.frame, st.returned, st.ret, st.broken, st.cont)
         fr = C([], "frame")
-        st.frame, st.returned, st.ret = fr, z3.BoolVal(False), None
+        st.frame, st.returned, st.ret, st.broken, st.cont = fr, z3.BoolVal(False), None, z3.BoolVal(False), z3.BoolVal(False)
         for (pn, pt), a in zip(f.params, args):
             fr.keys.append(pn)
             st.heap[(fr.id, pn)] = self.clone(st, a) if isinstance(a, C) else a
@@ -324,7 +341,7 @@ class Evaluator:
         self.exec_block(f.body, st)
         self.depth -= 1
         r = st.ret
-        st.frame, st.returned, st.ret = saved
+        st.frame, st.returned, st.ret, st.broken, st.cont = saved
         return r
 
     # ---- statements
@@ -354,9 +371,11 @@ class Evaluator:
         if k == "return":
             v = self.ev(a[0], st) if a[0] is not None else None
             v = self.clone(st, v)
-            g = z3.simplify(st.returned)
-            if st.ret is None or z3.is_false(g):
+            g = st.dead()
+            if z3.is_false(g):
                 st.ret = v
+            elif st.ret is None:
+                st.ret = v       # (only read under 'returned', which stays false on the dead paths)
             elif isinstance(v, C):
                 # merge aggregates field-wise into a fresh aggregate
                 m = C(v.keys, v.kind)
@@ -364,7 +383,7 @@ class Evaluator:
                 st.ret = m
             else:
                 st.ret = ite(g, st.ret, v)
-            st.returned = z3.BoolVal(True)
+            st.returned = z3.simplify(z3.Or(st.returned, z3.Not(z3.Or(st.broken, st.cont))))
             return
         if k == "if":
             c = z3.simplify(tobool(self.ev(a[0], st)))
@@ -385,7 +404,36 @@ class Evaluator:
                 self.guards.pop()
             self.merge(c, s1, st)
             return
-        raise ExtractionBreak("mathvc: statement kind '%s' (loops are not supported by the math back end)" % k)
+        if k == "break":
+            st.broken = z3.simplify(z3.Or(st.broken, z3.Not(z3.Or(st.returned, st.cont))))
+            return
+        if k == "continue":
+            st.cont = z3.simplify(z3.Or(st.cont, z3.Not(z3.Or(st.returned, st.broken))))
+            return
+        if k in ("for", "while") and self.unroll:
+            # bounded unrolling: K iterations are executed symbolically; 'the loop has exited by then' is an OBLIGATION
+            # (under the lemma's hypotheses), so the result is complete for the inputs the hypotheses allow, never a cut
+            if k == "for":
+                _, c, n, b, lid = a
+            else:
+                c, b, lid = a
+                n = None
+            outer = (st.broken, st.cont)
+            st.broken, st.cont = z3.BoolVal(False), z3.BoolVal(False)
+            for it in range(self.unroll):
+                cv = tobool(self.ev(c, st)) if c is not None else z3.BoolVal(True)
+                st.broken = z3.simplify(z3.Or(st.broken, z3.And(z3.Not(st.returned), z3.Not(cv))))
+                if z3.is_true(st.dead()):
+                    break
+                self.exec_block(b, st)
+                st.cont = z3.BoolVal(False)
+                if n is not None:
+                    self.ev(n, st)
+            cv = tobool(self.ev(c, st)) if c is not None else z3.BoolVal(True)
+            self.add_oblig("loop_%s_has_exited_after_%d_iterations" % (lid, self.unroll), z3.Or(st.dead(), z3.Not(cv)))
+            st.broken, st.cont = outer
+            return
+        raise ExtractionBreak("mathvc: statement kind '%s' (loops are supported by the math back end only with unroll=K)" % k)
 
     def merge_agg(self, st, g, a, b, out):
         for k in out.keys:
@@ -424,6 +472,8 @@ class Evaluator:
         else:
             s2.ret = ite(c, s1.ret, s2.ret)
         s2.returned = z3.simplify(z3.If(c, s1.returned, s2.returned))
+        s2.broken = z3.simplify(z3.If(c, s1.broken, s2.broken))
+        s2.cont = z3.simplify(z3.If(c, s1.cont, s2.cont))
 
     # ---- expressions
     def lv(self, x, st):
@@ -494,6 +544,21 @@ class Evaluator:
             return Ptr(st.frame, n)
         raise ExtractionBreak("mathvc: lvalue kind %s" % k)
 
+    FLT_MAX = z3.RealVal("340282346638528859811704183484516925440")
+    FLT_MIN = z3.Q(1, 2 ** 126)
+
+    def round_f32(self, v, what):
+        """standard model of one correctly rounded binary32 operation on the exact result v: fl(v) = v * (1 + d), |d| <= 2^-24,
+        valid when v does not overflow and is zero or a normal number -- both are OBLIGATIONS here (a result in the subnormal
+        range has no relative bound, an overflowing one is not a number)"""
+        self.nround = getattr(self, "nround", 0) + 1
+        av = z3.If(v >= 0, v, -v)
+        self.add_oblig("float_%s_%d_does_not_overflow" % (what, self.nround), av <= self.FLT_MAX)
+        self.add_oblig("float_%s_%d_is_zero_or_normal" % (what, self.nround), z3.Or(v == 0, av >= self.FLT_MIN))
+        d = self.newsym("ulp")
+        self.side.append(z3.And(d >= z3.Q(-1, 2 ** 24), d <= z3.Q(1, 2 ** 24)))
+        return v * (1 + d)
+
     def arith(self, op, x, y, unsigned=False):
         x, y = tonum(x), tonum(y)
         if op in ("/", "%") and self.mode == "int" and unsigned:
@@ -561,6 +626,8 @@ class Evaluator:
                 v = self.arith(op, l, r, unsigned=uns)
                 if x.ty is not None and x.ty.kind == "builtin":
                     self.in_range(v, x.ty.name, "result_of_" + {"+": "add", "-": "sub", "*": "mul", "/": "div", "%": "mod"}[op])
+                if self.rounding and self.mode == "real" and op != "%" and (x.ty is None or (x.ty.kind == "builtin" and x.ty.name == "float") or (x.ty.kind == "rec" and x.ty.name in self.rounding_types)):
+                    v = self.round_f32(v, {"+": "add", "-": "sub", "*": "mul", "/": "div"}[op])
                 return v
             if op in ("<", ">", "<=", ">=", "==", "!="):
                 return cmp(op, l, r)
